@@ -8,6 +8,36 @@ def progs(ctx):
     return SC.default_programs(ctx, OB.gen_decl_programs(ctx.seed, 2500 if q else 40000) + OB.gen_literal_programs(ctx.seed, 1000 if q else 20000))
 
 
+def typing_diagnostics_through_includes(ctx, recs, failures):
+    """a type mismatch is diagnosed wherever the offending statement is written: the typing diagnostics of a program
+    with (nested) real includes, collected over the whole include tree, are those of the spliced text"""
+    import json, random, re
+    from . import c18
+    from . import common as C
+    from . import gen_text as G
+    from . import pipeline as PL
+    rnd = random.Random(ctx.seed + 81)
+    n = 300 if ctx.tier == "quick" else 5000
+    cases = [c18.chain_case(rnd, 300000 + i) for i in range(n)]
+    out = C.run_impl(ctx, "include", [json.dumps({k: v for k, v in c.items() if k != "root"}) for c in cases], tag="c08inc")
+    spl = [c18.splice(c, c["main"]) for c in cases]
+    sp = C.run_impl(ctx, "sema", [G.enc(t or "") for t in spl], tag="c08spl")
+    TY = ("IncompatibleTypesError", "IncompatibleDimensionError", "CastError")
+    nchk = 0
+    for c, a, t, b in zip(cases, out, spl, sp):
+        if t is None or not a.startswith("asg=") or not b.startswith("asg="):
+            continue
+        nchk += 1
+        tree = sorted(k for k in re.findall(r"([A-Za-z]+)@\d+-\d+", a.split(";semtree=", 1)[1]) if k in TY)
+        flat = sorted(x.split("@")[0] for x in PL.fields(b).get("errors", "").split(",") if x.split("@")[0] in TY)
+        if tree != flat:
+            failures.append({"case": json.dumps({k: v for k, v in c.items() if k != "root"}), "check": "diagnosed_through_includes",
+                             "detail": {"main": c["main"], "files": c["files"], "typing_diagnostics_with_includes": tree, "of_spliced_text": flat},
+                             "guards": set(), "model_agrees": True,
+                             "replay_how": "echo '<case json>' | /verif/harness/target/debug/oq3-run include ; compare semtree= with errors= of oq3-run sema on the spliced text"})
+    ctx.coverage["include_chains_compared"] = nchk
+
+
 def check(ctx):
-    return SC.run(ctx, "C08", ["Oq3.Props.C08", "Oq3.Props.C08Prog"], [OB], progs(ctx),
+    return SC.run(ctx, "C08", ["Oq3.Props.C08", "Oq3.Props.C08Prog"], [OB], progs(ctx), post=typing_diagnostics_through_includes, rule=
                   "generated programs + declaration/arithmetic programs over operand type pairs x widths x const; oracle: typing rules re-derived per graph node (literal, cast, measure, unary, arithmetic common type and operand casts, identifiers, gate operands, calls, return), declaration and assignment decision tables, no silent downward conversion")
